@@ -19,12 +19,27 @@ Gen/Enums.vos Gen/Enums.vok Gen/Enums.required_vos: Gen/Enums.v
 Gen/Layouts.vo Gen/Layouts.glob Gen/Layouts.v.beautified Gen/Layouts.required_vo: Gen/Layouts.v Base/Layout.vo
 Gen/Layouts.vio: Gen/Layouts.v Base/Layout.vio
 Gen/Layouts.vos Gen/Layouts.vok Gen/Layouts.required_vos: Gen/Layouts.v Base/Layout.vos
+Model/Vdi.vo Model/Vdi.glob Model/Vdi.v.beautified Model/Vdi.required_vo: Model/Vdi.v Base/Plan.vo Base/Table.vo Model/Walk.vo Gen/Consts.vo
+Model/Vdi.vio: Model/Vdi.v Base/Plan.vio Base/Table.vio Model/Walk.vio Gen/Consts.vio
+Model/Vdi.vos Model/Vdi.vok Model/Vdi.required_vos: Model/Vdi.v Base/Plan.vos Base/Table.vos Model/Walk.vos Gen/Consts.vos
 Model/Vhd.vo Model/Vhd.glob Model/Vhd.v.beautified Model/Vhd.required_vo: Model/Vhd.v Base/Arith.vo Base/Plan.vo Base/Table.vo Gen/Consts.vo
 Model/Vhd.vio: Model/Vhd.v Base/Arith.vio Base/Plan.vio Base/Table.vio Gen/Consts.vio
 Model/Vhd.vos Model/Vhd.vok Model/Vhd.required_vos: Model/Vhd.v Base/Arith.vos Base/Plan.vos Base/Table.vos Gen/Consts.vos
+Model/Walk.vo Model/Walk.glob Model/Walk.v.beautified Model/Walk.required_vo: Model/Walk.v Base/Plan.vo
+Model/Walk.vio: Model/Walk.v Base/Plan.vio
+Model/Walk.vos Model/Walk.vok Model/Walk.required_vos: Model/Walk.v Base/Plan.vos
+Proofs/BlockMapped.vo Proofs/BlockMapped.glob Proofs/BlockMapped.v.beautified Proofs/BlockMapped.required_vo: Proofs/BlockMapped.v Base/Arith.vo Base/Plan.vo Model/Walk.vo
+Proofs/BlockMapped.vio: Proofs/BlockMapped.v Base/Arith.vio Base/Plan.vio Model/Walk.vio
+Proofs/BlockMapped.vos Proofs/BlockMapped.vok Proofs/BlockMapped.required_vos: Proofs/BlockMapped.v Base/Arith.vos Base/Plan.vos Model/Walk.vos
+Proofs/Vdi.vo Proofs/Vdi.glob Proofs/Vdi.v.beautified Proofs/Vdi.required_vo: Proofs/Vdi.v Base/Arith.vo Base/Plan.vo Base/Table.vo Model/Walk.vo Model/Vdi.vo Proofs/BlockMapped.vo
+Proofs/Vdi.vio: Proofs/Vdi.v Base/Arith.vio Base/Plan.vio Base/Table.vio Model/Walk.vio Model/Vdi.vio Proofs/BlockMapped.vio
+Proofs/Vdi.vos Proofs/Vdi.vok Proofs/Vdi.required_vos: Proofs/Vdi.v Base/Arith.vos Base/Plan.vos Base/Table.vos Model/Walk.vos Model/Vdi.vos Proofs/BlockMapped.vos
 Proofs/Vhd.vo Proofs/Vhd.glob Proofs/Vhd.v.beautified Proofs/Vhd.required_vo: Proofs/Vhd.v Base/Arith.vo Base/Plan.vo Base/Table.vo Model/Vhd.vo
 Proofs/Vhd.vio: Proofs/Vhd.v Base/Arith.vio Base/Plan.vio Base/Table.vio Model/Vhd.vio
 Proofs/Vhd.vos Proofs/Vhd.vok Proofs/Vhd.required_vos: Proofs/Vhd.v Base/Arith.vos Base/Plan.vos Base/Table.vos Model/Vhd.vos
 Props/C04.vo Props/C04.glob Props/C04.v.beautified Props/C04.required_vo: Props/C04.v Base/Plan.vo Base/Table.vo Model/Vhd.vo Proofs/Vhd.vo
 Props/C04.vio: Props/C04.v Base/Plan.vio Base/Table.vio Model/Vhd.vio Proofs/Vhd.vio
 Props/C04.vos Props/C04.vok Props/C04.required_vos: Props/C04.v Base/Plan.vos Base/Table.vos Model/Vhd.vos Proofs/Vhd.vos
+Props/C05.vo Props/C05.glob Props/C05.v.beautified Props/C05.required_vo: Props/C05.v Base/Plan.vo Base/Table.vo Model/Vdi.vo Proofs/Vdi.vo
+Props/C05.vio: Props/C05.v Base/Plan.vio Base/Table.vio Model/Vdi.vio Proofs/Vdi.vio
+Props/C05.vos Props/C05.vok Props/C05.required_vos: Props/C05.v Base/Plan.vos Base/Table.vos Model/Vdi.vos Proofs/Vdi.vos
